@@ -92,6 +92,7 @@ func RunShard(prop *Prop, tier string, seed uint64, shard, of int, skip map[int]
 	total := runsFor(prop, tier)
 	seenOracle := map[string]int{}
 	sigSeen := map[uint64]struct{}{}
+	var lastSys uint64
 	for run := shard; run < total; run += of {
 		if only >= 0 {
 			if run != shard {
@@ -116,6 +117,14 @@ func RunShard(prop *Prop, tier string, seed uint64, shard, of int, skip map[int]
 		v, herr := SafeExecute(prop, plan, st)
 		if d := time.Since(t0); d > 2*time.Second {
 			fmt.Fprintf(os.Stderr, "slow run: %s run %d took %v (%d events)\n", prop.ID, run, d, len(plan.Events))
+		}
+		if os.Getenv("VERIF_TRACE_MEM") != "" {
+			var ms runtime.MemStats
+			runtime.ReadMemStats(&ms)
+			if ms.Sys > lastSys+200<<20 {
+				fmt.Fprintf(os.Stderr, "big run: %s run %d grew the process to %d MB (heap in use %d MB, goroutines %d)\n", prop.ID, run, ms.Sys>>20, ms.HeapInuse>>20, runtime.NumGoroutine())
+				lastSys = ms.Sys
+			}
 		}
 		if herr != nil {
 			res.HarnessErr = fmt.Sprintf("run %d: %v", run, herr)
